@@ -302,9 +302,7 @@ func runParent(id, tier string) int {
 				if len(merged.Samples) < 4 {
 					merged.Samples = append(merged.Samples, w.Samples...)
 				}
-				if len(merged.PerScenario) < 48 {
-					merged.PerScenario = append(merged.PerScenario, w.PerScenario...)
-				}
+				merged.PerScenario = append(merged.PerScenario, w.PerScenario...)
 				mu.Unlock()
 			}
 		}(slot)
@@ -352,6 +350,10 @@ func runParent(id, tier string) int {
 		fmt.Printf("VIOLATION property=%s replay=%s\n", id, path)
 		fmt.Printf("  key: %s\n  scenario: %s\n  deviations: %d\n  what: %s\n", f.Key, f.Scenario, f.Devs, f.Msg)
 	}
+	sort.Slice(merged.PerScenario, func(i, j int) bool { return merged.PerScenario[i].Executions > merged.PerScenario[j].Executions })
+	if len(merged.PerScenario) > 24 {
+		merged.PerScenario = merged.PerScenario[:24]
+	}
 	wall := time.Since(start).Seconds()
 	exhaustive := merged.ScenariosCut == 0 && len(hangs) == 0
 	samples := []any{}
@@ -390,7 +392,7 @@ func runParent(id, tier string) int {
 			"state_pruned_executions":       merged.Pruned,
 			"workers":                       n,
 			"known_findings_hit":            knownHit,
-			"per_scenario_sample":           merged.PerScenario,
+			"largest_scenarios":             merged.PerScenario,
 			"technique":                     c.Technique,
 			"explanation":                   "every execution is an execution of the real implementation (no separate model): traces_validated_against_impl == executions",
 		},
